@@ -78,6 +78,7 @@ type Ctx struct {
 	aliveDone map[[2]*Term]bool
 	curMk    *markerInfo
 	inUse    map[*ssa.Function]int
+	trustedClauses []string
 	recTrial map[*ssa.Function]bool
 	recTarget *ssa.Function
 	recMeasure func(fr *Frame, args []Val) *Term
